@@ -81,6 +81,13 @@ auto pack(Ts... a)
     return covfie::make_parameter_pack(std::move(a)...);
 }
 
+// an application-defined vector descriptor: the library's vector_descriptor concept asks for nothing more
+template <class T, std::size_t M>
+struct user_desc {
+    using type = T;
+    static constexpr std::size_t size = M;
+};
+
 // A copy of a view is a view in its own right: after the copy has been taken, the original is made to view another
 // field (`other`) and is then destroyed and its memory released. Lookups through the returned copy must still see `f`.
 template <class B>
